@@ -31,9 +31,9 @@ struct Value {
         T_INT,
         T_DATA,
         T_OPCODE,
-    } type;
-    int64_t int64;
-    opcodetype opcode;
+    } type = T_STRING;
+    int64_t int64 = 0;
+    opcodetype opcode = OP_INVALIDOPCODE;
     std::vector<uint8_t> data;
     std::string str;
     static std::vector<Value> parse_args(const std::vector<const char*> args) {
